@@ -184,7 +184,7 @@ def requests_for(LL, S, scn, recs):
         if rec["op"]["op"] != "randomize":
             continue
         tops = [s for b in sorted(scn["blocks"], key=lambda b: b["name"]) for s in b["stmts"]]
-        fields = [dict(f, val=rec["before_s"][i]) for i, f in enumerate(scn["fields"])]
+        fields = [dict(f, val=rec["before_s"][i], declRand=bool(f["rand"] and not f.get("attr"))) for i, f in enumerate(scn["fields"])]
         lists = [{"name": l["name"], "w": l["w"], "s": l["s"], "rand": l["rand"], "randsz": l["randsz"],
                   "vals": rec["before_l"][li]["vals"], "size": rec["before_l"][li]["size"]} for li, l in enumerate(scn["lists"])]
         # variable names -> index in the model's field order (scalars, then per list: size, elements)
